@@ -712,6 +712,23 @@ def run(repo, chk):
                "is never refreshed by the update (it only reacts to status changes), so the continued run keeps a stale entry the uninterrupted run never had" % (sorted(ai) or "nothing", sorted(au) or "nothing"),
                expected=sorted(au), found=sorted(ai))
 
+    # ... and with the same KIND of test: a status may be held as a LinkStatus member or as the plain number a control action was given
+    # (ControlAction(link, 'status', 0) stores the int itself); `==` treats both alike, `is` only recognises the member.  If the initialisation and the
+    # update disagree in kind, a link closed by such an action is cut by the update of the uninterrupted run and joined by the initialisation of the continued one.
+    def test_kinds(guards):
+        kinds = set()
+        for gd in guards:
+            for cmp_ in ast.walk(gd.test):
+                if isinstance(cmp_, ast.Compare) and any("Closed" in unparse(x) for x in [cmp_.left] + list(cmp_.comparators)):
+                    for op in cmp_.ops:
+                        kinds.add("identity" if isinstance(op, (ast.Is, ast.IsNot)) else "equality" if isinstance(op, (ast.Eq, ast.NotEq)) else
+                                  "membership" if isinstance(op, (ast.In, ast.NotIn)) else type(op).__name__)
+        return kinds
+    ki, ku = test_kinds(gi_), test_kinds(gu_)
+    chk.expect(ki == ku and bool(ki), "R-C10-4", "the initialisation and the per-step update of the connectivity graph test the status in the same way (equality / identity)", loc(ig_, gi_[0]),
+               "a status stored as a plain number compares equal to LinkStatus.Closed but is not identical to it: a link closed that way is cut by one of the two functions and joined "
+               "by the other, so the continued run starts from a graph the uninterrupted run never had", expected=sorted(ku), found=sorted(ki))
+
     # ------------------------------------------------------------ R-C10-2 model-side state is plain picklable attributes
     # every class whose instances are part of the pickled model graph: all classes of the model modules (elements, registries, controls, conditions, actions,
     # options, the ordered set they use) -- derived from the source, so a class added later is covered
